@@ -40,7 +40,8 @@ CLAIMED.update({
                 "then evaluates |position - optimum| <= 0.5 on every fitting layer of every lattice-valued layout observed from the real code, "
                 "re-certifying the optimum by KKT per record.",
         "note": "Only lattice-valued inputs (multiples of 1/4) are compared with the optimum; ties of different width use the solver's chain order "
-                "from Force.getLayers().",
+                "from Force.getLayers(). Reported alongside (drift only): the end-to-end model Layout.tla (Distributor -> optimum -> rounding, list order, half-even, wall give) predicts every fresh lattice layout item by item."+
+                "",
         "technique": "TLA+ functional optimum + KKT certificate checked by TLC; refinement check against the solver model; trace validation",
         "design_ref": "DESIGN.md section 8 (C02)",
     },
